@@ -6,8 +6,9 @@ import kani_runner as K
 import props
 
 VERIF = K.VERIF
-EVID = os.path.join(VERIF, "evidence")
-REPLAYS = os.path.join(VERIF, "replays")
+import vpaths
+EVID = vpaths.EVIDENCE
+REPLAYS = vpaths.REPLAYS
 KNOWN = os.path.join(VERIF, "known_findings.json")
 
 
